@@ -495,6 +495,14 @@ def _ffi_case(world, c, i):
     hist += [["preparseSchema", n, j] for n, j in sorted(c["sc"].items())] if isinstance(c["sc"], dict) else []
     op = c["op"]
     hist.append(op)
+    if op[0] == "preparsePs":
+        # observe the effect of (re-)registration: the name just used, with and without a schema
+        hist.append(["stateful", op[1], "", False, 1])
+        hist.append(["stateful", op[1], "", False, 5])
+    if op[0] == "preparseSchema":
+        hist.append(["preparsePs", "obs", 2])
+        for r in (1, 2, 3):
+            hist.append(["stateful", "obs", op[1], True, r])
     if op[0] == "stateful":
         ps = c["ps"] if isinstance(c["ps"], dict) else {}
         sc = c["sc"] if isinstance(c["sc"], dict) else {}
@@ -569,3 +577,35 @@ C19 = dict(
 )
 FAMILIES["C19"] = C19
 import props_c05, props_c12; FAMILIES["C05"] = props_c05.C05; FAMILIES["C12"] = props_c12.C12
+
+
+# ----------------------------------------------------------------- C18
+def _symcc_case(world, c, i):
+    return dict(id=i, pols=c["pols"], pols2=c["pols2"], envs=c["envs"])
+
+
+def _mutate_symcc(ev):
+    if ev.get("ev") != "Symcc" or not ev.get("envs") or "sets" not in ev["envs"][0]:
+        return None
+    ev = json.loads(json.dumps(ev))
+    a = ev["envs"][0]["sets"]["alwaysAllows"]
+    ev["envs"][0]["sets"]["alwaysAllows"] = ["true"] if "false" in a else ["false"]
+    return ev
+
+
+C18 = dict(
+    family="symcc", trace_module="Trace_Symcc.tla",
+    models=[dict(name="mc_symcc", module="MC_Symcc.tla", cfg=dict(quick="MC_Symcc.cfg", thorough="MC_Symcc.cfg"),
+                 cases=_symcc_case, setup=_tpe_setup, limit=dict(quick=None, thorough=None))],
+    nontrivial=lambda ev: ev.get("ev") == "Symcc",
+    key=lambda ev: [ev.get("pols"), ev.get("pols2")],
+    mutate=_mutate_symcc, chunk=60, known_finding_id="C18-dangling-reference",
+    rule="G: 183 strictly valid policy sets x 5 second policy sets over Sc2, each compiled (compile_with_custom_symenv) against the literal SymEnv built by "
+         "SymEnv::from_concrete_env from each of 10 conformant environments (optional attributes present/absent, record-less entity references, i64 extreme, tags, "
+         "membership). For every policy: never_errors / always_matches / never_matches asserts; for the sets: always_allows / always_denies / implies / equivalent / "
+         "disjoint asserts. TLC checks that every assert reduced to a constant and that unsatisfiability agrees with the reference outcome/decision on that environment. "
+         "quick: seeded sample of 300 of 915 cases (x 10 environments).",
+    assumptions=["no SMT solver is involved: only literal environments, for which the asserts must be ground",
+                 "extension-typed attributes are not in schema Sc2"],
+)
+FAMILIES["C18"] = C18
